@@ -29,6 +29,7 @@ func (f *Frame) instr(ins ssa.Instruction) {
 		l := &Loc{Kind: locCell, T: et, Ptr: r}
 		e.store(f.heap, l, e.S.zero(et))
 		f.vals[x] = Val{T: r}
+		f.zeroGhostFields(et, r)
 		if !escapes(x, map[ssa.Value]bool{}) {
 			f.private = append(f.private, l)
 		}
@@ -244,8 +245,12 @@ func (f *Frame) binop(x *ssa.BinOp) {
 			n := f.vname(x)
 			e.decl(n, "Str")
 			e.assert(fmt.Sprintf("(and (= (s_off %s) 0) (= (s_len %s) (+ (s_len %s) (s_len %s))))", n, n, a, b))
-			e.assert(fmt.Sprintf("(forall ((k Int)) (=> (and (<= 0 k) (< k (s_len %s))) (= (select (s_arr %s) k) (str_at %s k))))", a, n, a))
-			e.assert(fmt.Sprintf("(forall ((k Int)) (=> (and (<= 0 k) (< k (s_len %s))) (= (select (s_arr %s) (+ (s_len %s) k)) (str_at %s k))))", b, n, a, b))
+			if e.con != nil && e.con.StringsExact {
+				e.assert(fmt.Sprintf("(forall ((k Int)) (=> (and (<= 0 k) (< k (s_len %s))) (= (select (s_arr %s) k) (str_at %s k))))", a, n, a))
+				e.assert(fmt.Sprintf("(forall ((k Int)) (=> (and (<= 0 k) (< k (s_len %s))) (= (select (s_arr %s) (+ (s_len %s) k)) (str_at %s k))))", b, n, a, b))
+			} else {
+				e.note("string concatenation: only the length of the result is modelled")
+			}
 			f.vals[x] = Val{T: n}
 			return
 		case token.EQL:
@@ -777,6 +782,9 @@ func (f *Frame) bindResults(env *SpecEnv, fn *ssa.Function, vals []Val) {
 func (f *Frame) allowedLocs() (map[string][]*Loc, bool) {
 	e := f.e
 	c := e.con
+	if c != nil && c.ModAll && len(c.Preserves) > 0 {
+		return map[string][]*Loc{}, true
+	}
 	if c == nil || c.ModAll || (len(c.Modifies) == 0 && !c.Pure) {
 		return nil, false
 	}
@@ -811,7 +819,7 @@ func (f *Frame) frameCond(hv, now, before string, locs []*Loc) string {
 		switch {
 		case l.Kind == locField && l.Parent.Kind == locCell:
 			except = append(except, fmt.Sprintf("(= r %s)", l.Parent.Ptr))
-		case l.Kind == locCell:
+		case l.Kind == locCell, l.Kind == locGField:
 			except = append(except, fmt.Sprintf("(= r %s)", l.Ptr))
 		case l.Kind == locElem:
 			except = append(except, fmt.Sprintf("(= r %s)", l.Base))
@@ -824,6 +832,24 @@ func (f *Frame) frameCond(hv, now, before string, locs []*Loc) string {
 
 func frameExempt(hv string) bool {
 	return hv == "$alloc" || hv == "$iter" || strings.HasPrefix(hv, "ghost!")
+}
+
+// framedVar: is heap variable hv subject to the function's frame? Under
+// `modifies *` only the variables listed in `preserves` are.
+func (f *Frame) framedVar(hv string) bool {
+	if frameExempt(hv) {
+		return false
+	}
+	c := f.e.con
+	if c != nil && c.ModAll {
+		for _, p := range c.Preserves {
+			if p == hv {
+				return true
+			}
+		}
+		return false
+	}
+	return true
 }
 
 // checkFrame: when the contract declares `modifies`, every heap variable not
@@ -841,7 +867,7 @@ func (f *Frame) checkFrame(pos token.Pos) {
 	}
 	sortStrings(names)
 	for _, hv := range names {
-		if frameExempt(hv) {
+		if !f.framedVar(hv) {
 			continue
 		}
 		now, before := e.hget(f.heap, hv), e.hget(f.entry, hv)
@@ -963,5 +989,27 @@ func (f *Frame) assumeAllocated(term string, t types.Type, depth int) {
 				f.assumeAllocated(fmt.Sprintf("(%s %s)", e.S.fieldAccessor(t, i), term), u.Field(i).Type(), depth+1)
 			}
 		}
+	}
+}
+
+// zeroGhostFields: ghost fields of a freshly allocated struct start at zero.
+func (f *Frame) zeroGhostFields(t types.Type, ref string) {
+	e := f.e
+	key, st := structKey(t)
+	if st == nil {
+		return
+	}
+	for gk, gt := range e.P.specs.GhostFields {
+		if !strings.HasPrefix(gk, key+".") {
+			continue
+		}
+		name := strings.TrimPrefix(gk, key+".")
+		env := f.specEnv(f.heap, nil, nil)
+		ty, err := env.lookupType(gt)
+		if err != nil {
+			continue
+		}
+		hv := e.S.heapVar("F!"+key+"!$"+name, "(Array Int "+e.S.sortOf(ty)+")")
+		e.hset(f.heap, hv, fmt.Sprintf("(store %s %s %s)", e.hget(f.heap, hv), ref, e.S.zero(ty)))
 	}
 }
